@@ -10,6 +10,7 @@ from vlib.logixbench import LogixScenario
 LEVEL = "exploration"
 SHARDS = {"quick": 8, "thorough": 16}
 TIMEOUT = {"quick": 900, "thorough": 3000}
+MIN_EVALUATIONS = {"quick": 4000, "thorough": 4000}  # fewer oracle evaluations than this means the workload collapsed: inconclusive
 RULE = ("request kinds {generic connected / UCMM / Unconnected Send, single read, single write, bit write (read-modify-write), 3-fragment read "
         "and write with the fault on each fragment position, multi-service read/write with every per-service status vector of length <= 4 over "
         "{0,4,5,6,0xFF}, register session, list identity, symbol-list page, template attribute and template read during upload} x general "
@@ -242,6 +243,9 @@ def run(ctx):
                 faults.append((kind, pos, ("trunc", n)))
             for r_ in range(12 if quick else 60):
                 faults.append((kind, pos, ("corrupt", r_)))
+            # an ERROR reply (general status forced by the target) cut at every length around its status words
+            for n in list(range(36, 56)):
+                faults.append((kind, pos, ("errtrunc", n)))
     sc = None
     for fi, (kind, pos, fault) in enumerate(faults):
         if not ctx.mine(fi):
@@ -265,7 +269,26 @@ def run(ctx):
                 break
             orig_receive = sock.receive
 
+            if fault[0] == "errtrunc":
+                est_ = rng.choice([0x04, 0x05, 0x08, 0xFF])
+                eext = rng.choice([(), (0x2105,), (0x0001, 0x0002)])
+                svc_ = service_of(kind)
+                cnt_ = {"n": 0}
+
+                def force_err(rq, est_=est_, eext=eext, svc_=svc_, cnt_=cnt_, pos=pos):
+                    if rq.service != svc_ or rq.embedded:
+                        return None
+                    cnt_["n"] += 1
+                    return (est_, eext, b"") if cnt_["n"] == pos else None
+                sc.dev.force_status = force_err
+
             def mutate_frame(frame, fault=fault):
+                if fault[0] == "errtrunc":
+                    n = fault[1]
+                    if n >= len(frame):
+                        return frame
+                    cut = frame[:n]
+                    return cut[:2] + (n - 24).to_bytes(2, "little") + cut[4:]
                 if fault[0] == "encap":  # header-only encapsulation error reply
                     return frame[:2] + (0).to_bytes(2, "little") + frame[4:8] + fault[1].to_bytes(4, "little") + frame[12:24]
                 if fault[0] == "trunc":
@@ -291,6 +314,7 @@ def run(ctx):
                 return mutate_frame(frame)
             sock.receive = receive
             st, out = do(sc, kind, rng)
+            sc.dev.force_status = None
             if getattr(sc.drv, "_sock", None) is sock:
                 sock.receive = orig_receive
             sc.dev.finish_transfers()
@@ -319,6 +343,9 @@ def run(ctx):
                     for t in (out if isinstance(out, list) else [out]):
                         if hasattr(t, "error") and (not t.error or not str(t.error).strip()):
                             res.violation(f"empty-error-text:{kind}:encap", f"{kind}: encapsulation error {fault[1]:#x} -> {t!r:.160}", wit)
+            elif fault[0] == "errtrunc":
+                if truthy(out):
+                    res.violation(f"truncated-error-reply-reported-as-success:{kind}", f"{kind}: an error reply cut to {fault[1]} bytes -> {out!r:.200}", wit)
             elif fault[0] == "trunc" and fault[1] < status_off and fault[1] < len(state["orig"]):
                 if truthy(out):
                     res.violation(f"short-reply-reported-as-success:{kind}", f"{kind}: reply cut to {fault[1]} bytes (status word at offset {status_off - 1}) -> {out!r:.200}", wit)
